@@ -24,6 +24,7 @@ func Run(r *report.Run) int {
 			r.Count("value_blobs_loaded", int64(sw.ValueBlobs))
 		}
 		r.Count("transactions", int64(res.Txns))
+		r.Count("interleaved_conflicting_pairs", int64(res.Interleaved))
 		r.Count("faults_fired", int64(res.FaultsFired))
 		if i < 2 {
 			r.Sample(map[string]any{"profiles": res.Profiles, "txns": res.Txns, "committed": res.Committed, "failed": res.Failed, "rolled_back": res.RolledBack, "log_tail": tail(res.Log, 8)})
@@ -52,7 +53,13 @@ func Run(r *report.Run) int {
 			}
 		}
 		if res.APIProblem != "" {
-			r.Violation("C10:history:"+prof+":api-scan-failed", map[string]any{"problem": res.APIProblem, "log": res.Log})
+			sp := prof
+			if strings.HasPrefix(res.APIProblem, "store a:") {
+				sp = res.Profiles[0]
+			} else if strings.HasPrefix(res.APIProblem, "store b:") {
+				sp = res.Profiles[1]
+			}
+			r.Violation("C10:history:"+sp+":api-scan-failed", map[string]any{"problem": res.APIProblem, "log": res.Log})
 		} else if res.ModelDiff != "" {
 			r.Count("histories_whose_final_state_differs_from_model(not judged here; C01/C07)", 1)
 		}
